@@ -9,6 +9,9 @@
 //
 // Ops (dense matrices are `r c v11 ... vrc`, row-major):
 //   comp_schur     nt type adjust_p approx_schur simplec_dia K pmask Umat Pmat f
+//   comp_schur_mv  nt adjust_p approx_schur simplec_dia K pmask Umat k (alpha beta x y){k} f xr
+//                  the object as the matrix-free operator the pressure solver iterates on: k calls of
+//                  backend::spmv(alpha, S, x, beta, y) in sequence on ONE object, then backend::residual(f, S, xr, r)
 //   comp_cpr       B active_rows K skind Smat Pmat f
 //   comp_cpr_upd   B active_rows K skind Smat Pmat f upd K2
 //   comp_cprb      B active_rows Kb skind Smat Pmat f          (Kb: CRS of row-major BxB blocks)
@@ -101,6 +104,9 @@ struct InnerSolver {
         params(const boost::property_tree::ptree&) {}      // pmask_pattern cases go through schur's ptree constructor
     } prm;
     std::shared_ptr<Crs> A; DM own; bool own_ok = false; mutable long calls = 0;
+    // the pressure solver is handed the composite object as a matrix-free operator: like a restarted Krylov solver it
+    // re-evaluates the true residual rhs - Op*x at its (non-zero) answer through backend::residual; logged for oracle (O6)
+    struct OpRes { std::vector<Q> rhs, x, res; }; mutable std::vector<OpRes> opres;
     template <class Matrix>
     InnerSolver(const Matrix &A_, const params &p = params(), const backend_params& = backend_params()) : prm(p), A(std::make_shared<Crs>(A_)) {
         if (prm.built) prm.built->push_back({prm.role, A});
@@ -113,7 +119,16 @@ struct InnerSolver {
         for (long i = 0; i < M.r; ++i) x[i] = y[i];
     }
     template <class V1, class V2> std::tuple<size_t, Q> operator()(const V1 &rhs, V2 &&x) const { mul(rhs, x); return std::make_tuple(size_t(1), Q(0)); }
-    template <class Op, class V1, class V2> std::tuple<size_t, Q> operator()(const Op&, const V1 &rhs, V2 &&x) const { mul(rhs, x); return std::make_tuple(size_t(1), Q(0)); }
+    template <class Op, class V1, class V2> std::tuple<size_t, Q> operator()(const Op &op, const V1 &rhs, V2 &&x) const {
+        mul(rhs, x);
+        const size_t m = A->nrows; OpRes o; o.rhs.resize(m); o.x.resize(m);
+        for (size_t i = 0; i < m; ++i) { o.rhs[i] = rhs[i]; o.x[i] = x[i]; }
+        amgcl::backend::numa_vector<Q> r(m); for (size_t i = 0; i < m; ++i) r[i] = Q::poisoned();
+        amgcl::backend::residual(rhs, op, x, r);
+        o.res.resize(m); for (size_t i = 0; i < m; ++i) o.res[i] = r[i];
+        opres.push_back(o);
+        return std::make_tuple(size_t(1), Q(0));
+    }
     const matrix& system_matrix() const { return *A; }
     std::shared_ptr<matrix> system_matrix_ptr() const { return A; }
 };
@@ -299,11 +314,103 @@ static Result exec_schur(Cur &c) {
         auto t1 = dmv(Tuu, uu), t2 = dmv(Tup, pu); for (long a = 0; a < nu; ++a) t1[a] += t2[a];
         if (!veq(dmv(St, pu), fp) || !veq(t1, fu)) r.fail(tagmd + "type 2 with exact inner solves: block upper-triangular system not solved");
     }
+    // (O6) inside apply the pressure solver evaluated the true residual of the matrix-free operator at its answer
+    //      (backend::residual on the object = spmv with alpha = -1, beta = 1): it must be rhs_p - S*p for the dense S
+    {
+        DM St = dadd(Tpp, dmul(dmul(Tpu, in.approx ? Dd : Um), Tup), -1);
+        if (S.P->opres.size() != 1) r.fail("pressure solver called " + std::to_string(S.P->opres.size()) + " times in apply");
+        for (auto &o : S.P->opres) {
+            if (has_poison(o.res)) { r.fail("residual(rhs, S, p) inside apply read scratch / uninitialised data (poison)"); continue; }
+            if (!veq(o.res, vsub(o.rhs, dmv(St, o.x)))) r.fail(tagmd + "residual(rhs, S, p) evaluated by the pressure solver inside apply != rhs - (Kpp - Kpu*U*Kup)*p");
+            bool nzx = false; for (auto &v : o.x) if (v != 0) nzx = true;
+            if (nzx) r.tag("op_residual_at_nonzero_iterate");
+            if (pex) { bool z = true; for (auto &v : o.res) if (v != 0) z = false; if (!z) r.fail(tagmd + "exact pressure solve (S*Pmat = I) but the operator's own residual rhs - S*p is not zero"); }
+        }
+    }
     r.nontrivial = nu > 0 && np > 0 && in.K.col.size() > (size_t)n;
     r.tag("schur_t" + std::to_string(in.type)); r.tag("adj" + std::to_string(in.adj)); if (in.approx) r.tag("approx_schur"); if (in.simplec) r.tag("simplec");
     if (exact) r.tag("exact_inner"); if (nu == 0 || np == 0) r.tag("empty_class"); r.tag("nt" + std::to_string(in.nt));
     bool inter = false; for (long i = 0; i + 2 < n; ++i) if (in.pm[i] != in.pm[i+1] && in.pm[i+1] != in.pm[i+2]) inter = true;
     r.tag(inter ? "mask_interleaved" : "mask_contiguous");
+    return r;
+}
+
+// the object as a linear operator: y = beta*y + alpha*S*x for arbitrary alpha, beta (not only the alpha = 1, beta = 0 of
+// extract_S) and backend::residual(f, S, x, r) = f - S*x, checked against the dense S = Kpp - Kpu*U*Kup
+struct MvCall { Q alpha, beta; std::vector<Q> x, y; };
+static Result exec_schur_mv(Cur &c) {
+    Result r; SchurIn in; in.type = 1;
+    in.nt = c.nat(); in.adj = c.nat(); long ap = c.nat(), sd = c.nat();
+    if (ap < 0 || ap > 1 || sd < 0 || sd > 1) throw bad_input("bool");
+    in.approx = ap; in.simplec = sd;
+    in.K = c.mat(); in.pm = c.natvec(); DM Um = parse_dense(c);
+    long k = c.nat(); if (k < 1 || k > 64) throw bad_input("k");
+    std::vector<MvCall> calls(k);
+    for (auto &m : calls) { m.alpha = c.rat(); m.beta = c.rat(); m.x = c.vec(); m.y = c.vec(); }
+    auto f = c.vec(), xr = c.vec(); c.expect_end();
+    std::string why; auto Kc = in.K.crs();
+    long n = in.K.n;
+    if (!crs_wf(*Kc, why) || in.K.n != in.K.m || (long)in.pm.size() != n || in.nt < 1 || in.adj < 0) throw bad_input("shape");
+    for (long b : in.pm) if (b < 0 || b > 1) throw bad_input("mask");
+    std::vector<long> ui, pi; for (long i = 0; i < n; ++i) (in.pm[i] ? pi : ui).push_back(i);
+    long nu = ui.size(), np = pi.size();
+    if (Um.r != nu || Um.c != nu) throw bad_input("inner");
+    for (auto &m : calls) { if ((long)m.x.size() != np || (long)m.y.size() != np) throw bad_input("vec"); if (has_poison(m.x) || has_poison(m.y) || m.alpha.poison || m.beta.poison) throw bad_input("poison"); }
+    if ((long)f.size() != np || (long)xr.size() != np || has_poison(f) || has_poison(xr)) throw bad_input("vec");
+    if (schur_reads_uninit(in)) { r.out = "uninit"; r.tag("schur_uninit"); return r; }
+    // dense truth straight from K and the mask
+    DM Kd = ddense(in.K);
+    auto block = [&](const std::vector<long> &ri, const std::vector<long> &ci) { DM Bk(ri.size(), ci.size()); for (size_t a = 0; a < ri.size(); ++a) for (size_t b = 0; b < ci.size(); ++b) Bk(a, b) = Kd(ri[a], ci[b]); return Bk; };
+    DM Tup = block(ui, pi), Tpu = block(pi, ui), Tpp = block(pi, pi);
+    DM inner = Um;
+    if (in.approx) {
+        inner = DM(nu, nu);
+        for (long a = 0; a < nu; ++a) {
+            if (in.simplec) { Q s(0); for (auto j = in.K.ptr[ui[a]]; j < in.K.ptr[ui[a]+1]; ++j) if (!in.pm[in.K.col[j]]) s += abs(in.K.val[j]); inner(a, a) = Q(1) / s; }
+            else { bool fnd = false; for (auto j = in.K.ptr[ui[a]]; j < in.K.ptr[ui[a]+1] && !fnd; ++j) if (in.K.col[j] == ui[a]) { fnd = true; inner(a, a) = in.K.val[j] == 0 ? Q(1) : Q(1) / in.K.val[j]; } }
+        }
+    }
+    DM St = dadd(Tpp, dmul(dmul(Tpu, inner), Tup), -1);
+
+#ifdef _OPENMP
+    omp_set_num_threads((int)in.nt);
+#endif
+    std::vector<std::pair<int, std::shared_ptr<Crs>>> built;
+    SPC S(*Kc, schur_params(in, &Um, nullptr, &built));
+    Line l; bool ld_nz = false;
+    if (S.Ld) for (size_t i = 0; i < S.Ld->size(); ++i) if ((*S.Ld)[i] != 0) ld_nz = true;
+    bool any_a = false;      // some call with alpha != 1 on a non-zero vector
+    for (auto &m : calls) {
+        poison(*S.rhs_u); poison(*S.rhs_p); poison(*S.u); poison(*S.p); poison(*S.tmp);
+        NVec X(m.x), Y(m.y); if (m.beta == 0) poison(Y);                 // beta = 0: y is an output only
+        amgcl::backend::spmv(m.alpha, S, X, m.beta, Y);
+        std::vector<Q> y = vecof(Y); l << "y" << y;
+        std::vector<Q> ex = dmv(St, m.x);
+        for (long i = 0; i < np; ++i) { ex[i] = m.alpha * ex[i]; if (m.beta != 0) ex[i] += m.beta * m.y[i]; }
+        std::string ab = "alpha = " + m.alpha.str() + ", beta = " + m.beta.str();
+        if (has_poison(y)) r.fail("spmv(alpha, S, x, beta, y) read scratch / an output-only y (poison), " + ab);
+        else if (!veq(y, ex)) r.fail("spmv(alpha, S, x, beta, y) != beta*y + alpha*(Kpp - Kpu*U*Kup)*x for " + ab + ", adjust_p = " + std::to_string(in.adj));
+        bool nzx = false; for (auto &v : m.x) if (v != 0) nzx = true;
+        if (nzx && m.alpha != 1) any_a = true;
+        r.tag(m.alpha == 1 ? "mv_alpha_1" : m.alpha == -1 ? "mv_alpha_m1" : m.alpha == 0 ? "mv_alpha_0" : "mv_alpha_other");
+        r.tag(m.beta == 0 ? "mv_beta_0" : m.beta == 1 ? "mv_beta_1" : "mv_beta_other");
+    }
+    {
+        poison(*S.rhs_u); poison(*S.rhs_p); poison(*S.u); poison(*S.p); poison(*S.tmp);
+        NVec F(f), X(xr), R(np); poison(R);
+        amgcl::backend::residual(F, S, X, R);
+        std::vector<Q> res = vecof(R); l << "r" << res;
+        std::vector<Q> ex = dmv(St, xr); for (long i = 0; i < np; ++i) ex[i] = f[i] - ex[i];
+        if (has_poison(res)) r.fail("residual(f, S, x, r) read scratch / the output-only r (poison)");
+        else if (!veq(res, ex)) r.fail("residual(f, S, x, r) != f - (Kpp - Kpu*U*Kup)*x, adjust_p = " + std::to_string(in.adj));
+    }
+#ifdef _OPENMP
+    omp_set_num_threads(1);
+#endif
+    r.out = l.get();
+    r.nontrivial = nu > 0 && np > 0 && any_a && in.K.col.size() > (size_t)n;
+    r.tag("schur_mv"); r.tag("mv_adj" + std::to_string(in.adj)); if (in.approx) r.tag("mv_approx_schur"); if (ld_nz) r.tag("mv_Ld_nonzero");
+    r.tag("nt" + std::to_string(in.nt));
     return r;
 }
 
@@ -637,6 +744,7 @@ static Result execute(const Toks &t) {
     Cur c(t); const std::string &op = t[0];
     if (op == "comp_pmask") return exec_pmask(c);
     if (op == "comp_schur") return exec_schur(c);
+    if (op == "comp_schur_mv") return exec_schur_mv(c);
     if (op == "comp_cpr") return exec_cpr(c, false);
     if (op == "comp_cpr_upd") return exec_cpr(c, true);
     if (op == "comp_cprb") return exec_cprb(c, false);
@@ -702,6 +810,38 @@ static void gen_schur(Rng &rng, const Opts &o, std::vector<std::string> &lines) 
     Line l; l << "comp_schur" << in.nt << in.type << in.adj << in.approx << in.simplec << in.K << in.pm << Um << Pm << gen_vec(rng, n);
     lines.push_back(l.get());
     if (in.pat != "-" && rng.coin(1, 3)) { Line q; q << "comp_pmask" << (rng.coin(1, 10) ? rng.range(0, 3) : n) << in.pat; lines.push_back(q.get()); }
+}
+
+// the composite object as the operator a Krylov pressure solver iterates on: alpha in {-1, 2, 1, 0, random}, beta in
+// {0, 1, random}, 1..4 calls in sequence on one object, then residual(); adjust_p = 1 (the default, with the Ld
+// correction) is over-represented, Kpp mostly with a stored diagonal so that Ld != 0
+static void gen_schur_mv(Rng &rng, const Opts &o, std::vector<std::string> &lines) {
+    long n = rng.range(2, o.thorough() ? 12 : 8);
+    SchurIn in; in.pm = gen_mask(rng, n, in.pat); in.type = 1;
+    if (rng.coin(1, 40)) std::fill(in.pm.begin(), in.pm.end(), rng.coin() ? 1 : 0);      // one class empty
+    in.adj = rng.coin(1, 2) ? 1 : (rng.coin(1, 10) ? 3 : rng.range(0, 2)); in.approx = rng.coin(1, 5); in.simplec = rng.coin();
+    in.nt = rng.pick(std::vector<long>{1, 1, 2, 3, 4});
+    int ppmode = (int)rng.range(0, 9); ppmode = ppmode < 7 ? 0 : (ppmode == 7 ? 1 : 2);
+    in.K = gen_saddle(rng, in.pm, ppmode, rng.coin());
+    if (rng.coin(1, 4)) in.K = unsort(rng, in.K, rng.coin(1, 3));
+    long nu = 0, np = 0; for (long b : in.pm) (b ? np : nu)++;
+    DM Um = rand_dense(rng, nu, nu);
+    if (rng.coin(2, 3) && !schur_reads_uninit(in)) {      // exact U = Kuu^-1 (Gaussian elimination of the logged Kuu)
+        SchurIn g = in; g.nt = 1;
+        SPC S(*g.K.crs(), schur_params(g, nullptr, nullptr, nullptr));
+        if (S.U->own_ok) Um = S.U->own;
+    }
+    auto coef = [&](bool is_alpha) -> Q {
+        int w = (int)rng.range(0, 9);
+        if (is_alpha) return w < 3 ? Q(-1) : w < 5 ? Q(2) : w < 6 ? Q(1) : w < 7 ? Q(0) : rng.rat_nz(5);
+        return w < 3 ? Q(0) : w < 6 ? Q(1) : rng.rat_nz(5);
+    };
+    auto pvec = [&]() { std::vector<Q> v = gen_vec(rng, np); if (rng.coin(1, 12)) std::fill(v.begin(), v.end(), Q(0)); else if (rng.coin(1, 8)) { std::fill(v.begin(), v.end(), Q(0)); if (np) v[rng.range(0, np - 1)] = Q(1); } return v; };
+    long k = rng.range(1, 4);
+    Line l; l << "comp_schur_mv" << in.nt << in.adj << in.approx << in.simplec << in.K << in.pm << Um << k;
+    for (long c = 0; c < k; ++c) l << coef(true) << coef(false) << pvec() << pvec();
+    l << pvec() << pvec();
+    lines.push_back(l.get());
 }
 
 // scalar CPR matrix: nb block rows of size B (+ extra inactive rows), sorted rows; diagonal blocks strictly
@@ -797,12 +937,14 @@ static void gen_defl(Rng &rng, const Opts &o, std::vector<std::string> &lines) {
 static void generate(Rng &rng, const Opts &o, std::vector<std::string> &lines) {
     long N = o.cases > 0 ? o.cases : (o.thorough() ? 15000 : 1500);
     for (long k = 0; k < N; ++k) {
-        int which = (int)rng.range(0, 9);
-        if (which < 5) gen_schur(rng, o, lines); else if (which < 8) gen_cpr(rng, o, lines); else gen_defl(rng, o, lines);
+        int which = (int)rng.range(0, 11);
+        if (which < 5) gen_schur(rng, o, lines); else if (which < 8) gen_cpr(rng, o, lines); else if (which < 10) gen_defl(rng, o, lines); else gen_schur_mv(rng, o, lines);
     }
     // malformed stream: both sides must answer bad-input
     lines.push_back("comp_schur 1 1 1 0 1 2 2 1 0 1 1 1 1 2 0 1 0 0 0 0 2 1 1");                 // mask shorter than the matrix
     lines.push_back("comp_schur 1 3 1 0 1 2 2 1 0 1 1 1 1 2 0 1 1 1 1 1 1 1 2 1 1");             // type 3
+    lines.push_back("comp_schur_mv 1 1 0 1 2 2 2 0 1 1 1 2 0 1 1 1 2 0 1 1 1 1 1 -1 0 1 1 2 1 1 1 1 1 1");     // y longer than np
+    lines.push_back("comp_schur_mv 1 1 0 1 2 2 2 0 1 1 1 2 0 1 1 1 2 0 1 1 1 1 0 1 1 1 1");                     // no spmv call (k = 0)
     lines.push_back("comp_cpr 2 0 3 3 1 0 1 1 1 1 1 2 1 1 0 0 1 1 1 3 1 1 1");                   // n not a multiple of block_size
     lines.push_back("comp_cpr 2 0 2 2 2 1 1 0 2 1 1 1 1 0 0 1 1 1 2 1 1");                       // unsorted row
     lines.push_back("comp_pmask 5 %12:3");                                                       // two-digit start: the code would read stride 0 and never terminate
